@@ -84,11 +84,14 @@ CLAIMED['C03'] = {
             '(dev and release cfg): no failing exit (Err, or Ok carrying InsertionOutcome::Skipped) is reached with Tds '
             'storage mutated and not restored from a snapshot taken while it was clean. Interprocedural, path-sensitive '
             'dataflow with result-edge correlation, snapshot recognition through closures / Options / tuples, and '
-            'owner contracts. Every internal error return is covered at once — the quantifier the suite cannot reach.',
+            'owner contracts; the same dataflow on the non-storage state (policies, insertion counter, duplicate index, '
+            'topology settings) with copy-snapshots; the condition under which a conditional snapshot is taken must slice to '
+            'the inputs of the condition under which the failing step runs. Every internal error return is covered at '
+            'once — the quantifier the suite cannot reach.',
     'note': 'Trusted: rustc MIR; derive(Clone) of Tds; field-sensitive MOD summaries with external hand-out / mutating '
-            'method classification; 1 restore-by-inverse table entry, 1 infeasible edge, 9 assumed-infeasible exits with '
-            'reasons (3 value correlations, 4 = remaining exits of F2; 2 further exits are known finding F2); 2 benign cache callees and the locate hint are '
-            'declared caches.',
+            'method classification; 1 restore-by-inverse table entry, 4 cut infeasible edges (value correlations, listed in '
+            'the evidence), 4 assumed-infeasible exits of the flip kernel (no witness); 2 further kernel exits are known '
+            'finding F2; 2 benign cache callees and the locate hint are declared caches.',
     'technique': 'interprocedural rollback (snapshot/restore) dataflow over rustc MIR',
     'design': '§4.2, §5 C03',
 }
